@@ -60,6 +60,10 @@ func reflectMap(v interface{}) (reflect.Value, bool) {
 	}
 	rt := rv.Type()
 	for rv.Kind() == reflect.Interface || rv.Kind() == reflect.Pointer {
+		if rv.IsNil() {
+			// e.g. 指向 nil 指针的指针, Elem() 之后是 zero Value, 不能再取 Type()
+			return rv, false
+		}
 		rv = rv.Elem()
 		rt = rv.Type()
 	}
